@@ -245,6 +245,23 @@ def run(ctx):
     from engine.strgrow import str_grow
     str_grow(ctx, prog)
 
+    from engine.parseloops import chunk_loop_eof as _cle, neg_skip as _nsk
+    ctx.rule('CHUNK-LOOP-EOF', 'every header-parser loop that starts a round by reading a chunk marker (`m` / `h` field of psf_binheader_readf) leaves when that read delivers nothing: an exit under '
+             '`target == 0` (READF-ZERO makes the target zero after a failed read), or under a test of the freshly assigned byte count of that very read; a parser that keeps interpreting '
+             'zeros as chunks can run for ever on a truncated stream', floor=9)
+    n_cle_ = _cle(ctx, prog)
+    ctx.require(n_cle_ >= 9, 'only %d marker-reading parser loops found' % n_cle_)
+    ctx.rule('NEG-SKIP', 'every relative header skip (`j` field of psf_binheader_readf) with a signed amount is proved non-negative at the call (A-PENT, or the enclosing guard orders the operands of '
+             '`A - B`); unsigned amounts cannot step back; a negative skip re-parses bytes already consumed and is how a hostile chunk size makes the parser loop for ever '
+             '(unproved sites: tables/c03_negskip.tsv, one written argument each)', floor=75)
+    fz_ = {}
+    for l_ in open(os.path.join(VERIF, 'tables', 'c03_negskip.tsv')):
+        if l_.strip() and not l_.startswith('#'):
+            k_, v_ = l_.rstrip('\n').split('\t', 1)
+            fz_[k_] = v_
+    n_ns_ = _nsk(ctx, prog, eff, frozen=fz_)
+    ctx.require(n_ns_ >= 75, 'only %d relative skips found' % n_ns_)
+
     ctx.rule('READF-ZERO', 'psf_binheader_readf clears the caller\'s target (`*ptr = 0` / memset (ptr, 0, n)) in every format arm before header_read fills it: after a short or failed read the '
              'parser sees zeros, never the previous chunk\'s bytes or uninitialised memory (LOOP-IO relies on exactly this to conclude that parser loops notice a dead stream)', floor=9)
     from engine.arms import switch_arm_stmts as _sas
